@@ -46,7 +46,10 @@ class SIntList:
         v = self._el(k)
         c = cur()
         inr = T.and_(T.le(0, k), T.lt(k, self.n))
-        c.axiom(T.implies(inr, T.and_(T.le(0, v), T.lt(v, self.bound), T.eq(self._pos(v), k))))
+        if self.bound is None:  # a sorted list of distinct ints of unknown range
+            c.axiom(T.implies(inr, T.eq(self._pos(v), k)))
+        else:
+            c.axiom(T.implies(inr, T.and_(T.le(0, v), T.lt(v, self.bound), T.eq(self._pos(v), k))))
         return v
 
     def pos(self, j):
